@@ -3,7 +3,17 @@ package main
 import (
 	"fmt"
 	"os"
+	"runtime/pprof"
 )
+
+var prof bool
+
+func exit(code int) {
+	if prof {
+		pprof.StopCPUProfile()
+	}
+	os.Exit(code)
+}
 
 func usage() {
 	fmt.Fprintln(os.Stderr, `usage:
@@ -17,6 +27,13 @@ func usage() {
 func main() {
 	if len(os.Args) < 2 {
 		usage()
+	}
+	if p := os.Getenv("RVC_PROF"); p != "" {
+		if f, err := os.Create(p); err == nil {
+			pprof.StartCPUProfile(f)
+			defer pprof.StopCPUProfile()
+			prof = true
+		}
 	}
 	switch os.Args[1] {
 	case "dump":
@@ -34,7 +51,7 @@ func main() {
 		}
 		w.dumpFunc(os.Args[3])
 	case "check":
-		os.Exit(cmdCheck(os.Args[2:]))
+		exit(cmdCheck(os.Args[2:]))
 	case "replay":
 		os.Exit(cmdReplay(os.Args[2:]))
 	case "selftest":
